@@ -283,9 +283,41 @@ func runFreshFile(c *Ctx) {
 				})
 				return true
 			})
+			// the fallback location (second argument of ...WithFallback) is stale metadata just the same
+			fallbackMissing := ""
+			if len(call.Args) >= 2 && strings.HasSuffix(fi.Name, "WithFallback") {
+				if sv, isC := constString(info, call.Args[1]); !isC || sv != "" {
+					want := pathCandidates(f, call.Args[1])
+					got := false
+					ast.Inspect(f.Body, func(nd ast.Node) bool {
+						is, ok := nd.(*ast.IfStmt)
+						if !ok || !mentionsDep(is.Cond) {
+							return true
+						}
+						ast.Inspect(is.Body, func(m ast.Node) bool {
+							if rc, ok := m.(*ast.CallExpr); ok && calleeIs(info, rc, "os", "Remove") && len(rc.Args) == 1 && rc.Pos() < call.Pos() {
+								for _, a := range pathCandidates(f, rc.Args[0]) {
+									for _, w := range want {
+										if a == w {
+											got = true
+										}
+									}
+								}
+							}
+							return true
+						})
+						return true
+					})
+					if !got {
+						fallbackMissing = types.ExprString(call.Args[1])
+					}
+				}
+			}
 			switch {
 			case !okOrder:
 				c.Bad(key, call.Pos(), "the data file is created/resized before it is observed: the stat can no longer tell a missing or shorter file from a valid partial one")
+			case removed && fallbackMissing != "":
+				c.Bad(key, call.Pos(), "when the data file is found missing or of another length only the primary sidecar is removed, not the fallback one ("+fallbackMissing+") that LoadOrCreateSidecarWithFallback loads next: the recreated, zero-filled file inherits the old completion marks, the sender skips those chunks and both sides report success")
 			case !removed:
 				c.Bad(key, call.Pos(), "the data file is observed but the result never leads to discarding the sidecar ("+primary+") before it is loaded")
 			case removeAfterCreate(cfg, createRefs, removeRefs):
@@ -665,4 +697,20 @@ func removeAfterCreate(cfg *CFG, creates, removes []NodeRef) bool {
 		}
 	}
 	return false
+}
+
+// pathCandidates: the expression itself and, for a local variable, every non-empty definition of it, as strings.
+func pathCandidates(f *FuncInfo, e ast.Expr) []string {
+	out := []string{types.ExprString(ast.Unparen(e))}
+	if o, ok := ObjOf(f.Info(), e).(*types.Var); ok && !o.IsField() {
+		if own := owningFunc(f, o); own != nil {
+			for _, d := range allDefs(own, o) {
+				if sv, isC := constString(own.Info(), d); isC && sv == "" {
+					continue
+				}
+				out = append(out, types.ExprString(ast.Unparen(d)))
+			}
+		}
+	}
+	return out
 }
